@@ -78,7 +78,7 @@ SegKinds == [i \in 1..(2 * Len(Chars) + 1) |->
                ELSE [c |-> "", q |-> TRUE]]
 
 (* IFS settings: name -> set of symbols ("unset" behaves as the default) *)
-IFSNames == <<"unset", "default", "sp_comma", "comma", "one", "empty", "sp_u1", "comma_one">>
+IFSNames == <<"unset", "default", "sp_comma", "comma", "one", "empty", "sp_u1", "comma_one", "sp_only">>
 IFSOf(n) == CASE n = "unset"       -> DefaultIFS
               [] n = "default"     -> DefaultIFS
               [] n = "sp_comma"    -> {"SP", ","}
@@ -87,6 +87,7 @@ IFSOf(n) == CASE n = "unset"       -> DefaultIFS
               [] n = "empty"       -> {}
               [] n = "sp_u1"       -> {"SP", "U1"}
               [] n = "comma_one" -> {",", "1"}
+              [] n = "sp_only"   -> {"SP"}                 \* a proper subset of the default white space: a tab is an ordinary character
 
 WordOf(segs) == [i \in 1..Len(segs) |-> SegKinds[segs[i]]]
 
